@@ -10,7 +10,8 @@ UNIT = dict(
       ('impl SymbolicByteCode', ['len', 'stack_effect']),
     ]),
     ('laythe_core/src/object/fun.rs', [
-      'struct FunBuilder', ('impl FunBuilder', ['update_max_slots']),
+      'struct FunBuilder', ('impl FunBuilder', ['update_max_slots', 'build']),
+      'struct Fun', ('impl Fun', ['max_slots']),
     ]),
     ('laythe_vm/src/compiler/peephole.rs', [
       'struct VecCursor',
@@ -23,6 +24,10 @@ UNIT = dict(
     ('R7f', 'struct Label'), ('R7f', 'struct VecCursor'), ('R7f', 'struct FunBuilder'),
     ('R7', 'struct VecCursor', dict(pat='struct VecCursor', rep='pub struct VecCursor', count=1)),
     ('R10', 'struct FunBuilder', dict(keep=['max_slots'])),
+    ('R7f', 'struct Fun'), ('R10', 'struct Fun', dict(keep=['max_slot'])), ('R11', 'struct Fun', dict(drop=['Clone'])),
+    # R10: the struct literal in build() is projected to the kept field; `chunk` is an opaque parameter
+    ('R10', 'FunBuilder::build', dict(pat=r'Fun \{\s*name: self\.name,\s*arity: self\.arity,\s*capture_count: self\.capture_count,\s*(max_slot: [^,]+,)\s*module_id: self\.module\.id\(\),\s*module: self\.module,\s*chunk,\s*\}',
+                                      rep=r'Fun { \1 }', regex=True, count=1)),
     ('R11', 'struct Label', _ENUM_DERIVE),
     ('R11', 'enum CaptureIndex', _ENUM_DERIVE),
     ('R11', 'enum SymbolicByteCode', _ENUM_DERIVE),
